@@ -597,6 +597,74 @@ func TestStress(t *testing.T) {
 			r.Violation(fmt.Sprintf("stress-bounds:%s:%d", cf.Name, i), "config "+cf.Name+": "+v.(string), map[string]any{"config": cf})
 		}
 	}
+	// large caches of uniform 8-byte elements (key 4 + value 4): in EVERY Stats snapshot Size == 8 * Count, whatever
+	// runs concurrently - Clear of thousands of entries, Sets of new keys, Dels, evictions
+	bigRuns := r.Pick(6, 40)
+	var bigSnaps atomic.Int64
+	for i := 0; i < bigRuns; i++ {
+		cc := cache.Config{EnableLRU: i%2 == 0}
+		if i%3 == 1 {
+			cc.MaxCount = 2500
+		}
+		if i%3 == 2 {
+			cc.MaxSize = 8 * 3000
+		}
+		if cc.EnableLRU && i%4 == 0 {
+			cc.OnDelete = func(k, v []byte) {}
+		}
+		c := cache.New(cc)
+		var bad atomic.Value
+		var stop atomic.Bool
+		var wg sync.WaitGroup
+		key := func(n int) []byte { return []byte(fmt.Sprintf("%04d", n%5000)) }
+		for w := 0; w < 6; w++ {
+			wg.Add(1)
+			go func() {
+				defer wg.Done()
+				rng := rand.New(rand.NewPCG(r.Seed+5, uint64(i*10+w)))
+				for n := 0; !stop.Load() && n < 200_000; n++ {
+					switch {
+					case w == 0:
+						// the clearer: fill up, then Clear
+						for k := 0; k < 4000; k++ {
+							c.Set(key(k), []byte("vvvv"))
+						}
+						c.Clear()
+					case w == 1 || w == 2:
+						st := c.Stats()
+						bigSnaps.Add(1)
+						if st.Size != 8*st.Count || st.Count < 0 {
+							bad.CompareAndSwap(nil, fmt.Sprintf("a Stats snapshot taken while other goroutines Set/Del/Clear says Count=%d Size=%d; every element is 8 bytes", st.Count, st.Size))
+						}
+						if cc.MaxCount != 0 && uint(st.Count) > cc.MaxCount || cc.MaxSize != 0 && uint(st.Size) > cc.MaxSize {
+							bad.CompareAndSwap(nil, fmt.Sprintf("Stats snapshot Count=%d Size=%d exceeds MaxCount=%d / MaxSize=%d", st.Count, st.Size, cc.MaxCount, cc.MaxSize))
+						}
+					case w == 3:
+						c.Del(key(rng.IntN(5000)))
+					default:
+						c.Set(key(rng.IntN(5000)), []byte("wwww"))
+						if v := c.Get(key(rng.IntN(5000))); v != nil && len(v) != 4 {
+							bad.CompareAndSwap(nil, fmt.Sprintf("Get returned %q, every value is 4 bytes", v))
+						}
+					}
+					if w == 0 && n >= 12 {
+						stop.Store(true)
+					}
+				}
+			}()
+		}
+		wg.Wait()
+		ops.Add(12 * 4000)
+		st := c.Stats()
+		snap := cache.VerifInspect(c)
+		if len(snap.Problems) > 0 || st.Size != 8*st.Count {
+			bad.CompareAndSwap(nil, fmt.Sprintf("at quiescence: Count=%d Size=%d, structure problems %v", st.Count, st.Size, snap.Problems))
+		}
+		if v := bad.Load(); v != nil {
+			r.Violation(fmt.Sprintf("stress-big:%d", i), fmt.Sprintf("cache %+v with thousands of uniform elements: %s", cc, v.(string)), map[string]any{"run": i, "lru": cc.EnableLRU, "max_count": cc.MaxCount, "max_size": cc.MaxSize})
+		}
+	}
+	r.Count("big_cache_stats_snapshots", bigSnaps.Load())
 	r.Eval(ops.Load())
 	r.NontrivialN(int64(runs))
 	r.Count("stress_operations", ops.Load())
